@@ -99,7 +99,9 @@ def dep5_case(draw):
         for pat in pats:
             paths |= draw(witness_paths(pat))
         cop = [f"20{10 + k} Holder {k}"] + draw(st.lists(st.sampled_from(["2001 Second Line", "Copyright (C) 1999 Third, Inc.", "© Fourth <f@example.org>"]), max_size=2, unique=True))
-        lic = draw(st.sampled_from(["MIT", "GPL-3.0-or-later", "Apache-2.0 OR MIT", f"LicenseRef-p{k}", "GPL-2.0-only WITH Classpath-exception-2.0"]))
+        # (among them expressions that a simplifier would reorder, shorten or absorb: they have to arrive as they are)
+        lic = draw(st.sampled_from(["MIT", "GPL-3.0-or-later", "Apache-2.0 OR MIT", f"LicenseRef-p{k}", "GPL-2.0-only WITH Classpath-exception-2.0",
+                                    "MIT OR 0BSD", "CC0-1.0 AND (CC0-1.0 OR Apache-2.0)", "ISC OR ISC", "(MIT AND ISC) OR MIT"]))
         para = {"files": pats, "cop": cop, "lic": lic, "body": draw(st.booleans()), "comment": draw(st.sampled_from([None, None, "A comment.", "Two\n lines"])),
                 # layout of the continuation lines of the Copyright field: uneven indentation, trailing blanks
                 "indent": draw(st.lists(st.sampled_from([" ", "  ", "      ", "\t", " \t"]), min_size=3, max_size=3)),
